@@ -609,7 +609,8 @@ DecAffine ==
             LET r0 == Residual(prog.eqs[q], EnvD(prog, pt, Zero))
                 r1 == Residual(prog.eqs[q], EnvD(prog, pt, One))
                 r2 == Residual(prog.eqs[q], EnvD(prog, pt, FromInt(2)))
-            IN  (r0 # Err /\ r1 # Err /\ r2 # Err) => r2 = RSub(RAdd(r1, r1), r0)
+                ex == RSub(RAdd(r1, r1), r0)
+            IN  (Uses(prog, {"dec"}) /\ r0 # Err /\ r1 # Err /\ r2 # Err /\ ex # Err) => r2 = ex
 
 (* printing with parentheses and reading back with Python's grammar returns the Modelica tree itself
    (a sanity theorem about the reader: under the intended switches nothing depends on precedence) *)
